@@ -52,6 +52,7 @@ AggPrefix == 65281           \* 0xff01
 SliceLimit == 256
 IndexLimit == 1024
 ExtraCap == 4194304
+TxMaxSize == 4194304         \* config.TransactionMaximumSize: longer byte strings are refused unread
 
 ByteLen(v) ==
     IF v = 0 THEN 0 ELSE IF v < 256 THEN 1 ELSE IF v < 65536 THEN 2 ELSE IF v < 16777216 THEN 3 ELSE 4
@@ -63,8 +64,13 @@ NoMint == [has |-> FALSE, group |-> NoB, batch |-> 0, amt |-> 0]
 NoW == [has |-> FALSE, addr |-> NoB, tag |-> NoB]
 NoSigs == [kind |-> "maps", maps |-> <<>>, asig |-> 0, signers |-> <<>>]
 
-RECURSIVE Flat(_)
-Flat(ss) == IF ss = <<>> THEN <<>> ELSE Head(ss) \o Flat(Tail(ss))
+\* concatenation of a sequence of sequences (logarithmic recursion depth: lists of 256 items)
+RECURSIVE FlatR(_, _, _)
+FlatR(ss, a, b) ==
+    IF a > b THEN <<>>
+    ELSE IF a = b THEN ss[a]
+    ELSE LET m == (a + b) \div 2 IN FlatR(ss, a, m) \o FlatR(ss, m + 1, b)
+Flat(ss) == FlatR(ss, 1, Len(ss))
 
 Pow2(n) == LET P[i \in 0..n] == IF i = 0 THEN 1 ELSE 2 * P[i - 1] IN P[n]
 
@@ -317,6 +323,7 @@ TxUnk == [verdict |-> "any", d |-> 0]
 Fail(r) == IF r.st = "rej" THEN TxRej ELSE TxUnk
 
 TxParseO(t, offs) ==
+    IF offs[Len(t) + 1] > TxMaxSize THEN TxRej ELSE
     LET ver == S(t, offs, 1, 4) IN IF ver.st # "ok" THEN Fail(ver) ELSE
     IF ver.v # TxVerOK THEN TxRej ELSE
     LET as == V(t, offs, 2, 32) IN IF as.st # "ok" THEN Fail(as) ELSE
